@@ -14,7 +14,7 @@ PROPERTY = {
                    "and mirror consistently for reverse travel; the jerk is +jm, -jm or 0 for every context and time.",
     "trusted_base": ["cbmc 6.11.0 (IEEE-754 bit-precise float encoding, round-to-nearest); cvc5 for the float obligations, MiniSat for memory safety, loop termination and the enumerated companions",
                      "goto-instrument --dfcc loop contract on the bisection loop of a_trajbell_gen",
-                     "libm sqrt by an assumed contract (stub in harness/traj.c): x >= 0 -> result >= 0, zero iff x is zero, finite iff x is finite; x < 0 or NaN -> NaN (in the two enumerated companion units additionally result^2 within relative 2^-40 of x)",
+                     "libm sqrt by an assumed contract (stub in harness/traj.c): x >= 0 -> result >= 0, zero iff x is zero, finite iff x is finite; x < 0 or NaN -> NaN (in the two enumerated companion units additionally result^2 within relative 2^-51 of x)",
                      "a_real = double, LP64"],
     "assumptions": [
         "NOT APPLICABLE (nonlinear real arithmetic with sqrt, outside the back end's reach): speed/acceleration/jerk within their limits at every instant, continuity of position/velocity/acceleration across phase boundaries, the motion ending at (p1, recorded v1), and non-negativity of the phase durations that are quotients of computed quantities (only the sign facts listed in the explanation are decided)",
@@ -76,7 +76,7 @@ UNITS = [
     U("bell_gen_mem", "traj.c", "h_bell_gen", functions=["a_trajbell_gen"], replay=RP, loops=BELL_LOOP, only=["pointer", "bounds"], no_canary=True,
       cbmc=["--slice-formula"], timeout=600, min_obl=10),
     # bounded companions: same clauses, small integer requests (a violated clause is reported with a concrete request within seconds)
-    T("trap_gen_small", ["a_trajtrap_gen"], level="B", bound="integer requests |x| <= 2 (sqrt contract tightened to relative 2^-40)", defines=["DS=2", "SQRT_TIGHT"], solver=None, split=12, key=["deceleration-only plan starts from"], min_obl=10, timeout=300),
-    T("bell_gen_small", ["a_trajbell_gen"], level="B", bound="integer requests: limits jm, am, vm in 1..3, |p0| <= 1, |p1| <= 2, |v0|, |v1| <= 1; bisection loop unwound 3 iterations (longer searches cut); sqrt contract tightened to relative 2^-40", defines=["DS=3", "SQRT_TIGHT"], solver=None, split=12,
+    T("trap_gen_small", ["a_trajtrap_gen"], level="B", bound="integer requests |x| <= 2 (sqrt contract tightened to relative 2^-51)", defines=["DS=2", "SQRT_TIGHT"], solver=None, split=12, key=["deceleration-only plan starts from"], min_obl=10, timeout=300),
+    T("bell_gen_small", ["a_trajbell_gen"], level="B", bound="integer requests: limits jm, am, vm in 1..3, |p0| <= 1, |p1| <= 2, |v0|, |v1| <= 3; bisection loop unwound 3 iterations (longer searches cut); sqrt contract tightened to relative 2^-51", defines=["DS=3", "SQRT_TIGHT"], solver=None, split=12,
       unwindset=[("a_trajbell_gen.0", 3)], key=["td >= 2 tdj"], min_obl=8, timeout=300),
 ]
